@@ -38,7 +38,7 @@ def step(name, cmd, cwd=wt):
 try:
     if phase != "confirm":
         raise StopIteration
-    rc, _ = step("apply demo", f"git apply {src}/demo.diff")
+    rc, _ = step("apply demo", f"git apply {src}/demo.diff || git apply -3 {src}/demo.diff")
     assert rc == 0, "demo.diff does not apply"
     rc, out = step("demo on clean tree", f"cargo test --offline --lib {filt} 2>&1 | tail -15")
     meta["demo_clean_pass"] = ("test result: ok" in out and " 0 passed" not in out)
@@ -46,7 +46,7 @@ try:
     assert rc == 0, "patch.diff does not apply"
     rc, out = step("demo with patch", f"cargo test --offline --lib {filt} 2>&1 | tail -25")
     meta["demo_patched_fails"] = ("FAILED" in out or "failed" in out) and "test result: ok" not in out
-    rc, out = step("existing suite with patch (demo removed)", f"git apply -R {src}/demo.diff && cargo test --offline --lib 2>&1 | tail -6")
+    rc, out = step("existing suite with patch (demo removed)", f"git checkout -q -- . && git clean -fdq -e target && (git apply {src}/patch.diff || git apply -3 {src}/patch.diff) && cargo test --offline --lib 2>&1 | tail -6")
     meta["suite_passes_with_patch"] = "test result: ok" in out
     meta["suite_summary"] = [l for l in out.splitlines() if "test result" in l]
 except StopIteration:
